@@ -421,9 +421,15 @@ impl Typer {
             _ => self.infer_expr(genv, local_env, diagnostics, e),
         };
 
+        let uncoerced_ty = expr_tast.get_ty();
         let expr_tast = self.coerce_to_expected_dyn(genv, diagnostics, e, expr_tast, expected);
         self.push_constraint(Constraint::TypeEqual(expr_tast.get_ty(), expected.clone()));
         self.record_expr_result(e, &expr_tast);
+        if matches!(expr_tast, tast::Expr::EToDyn { .. }) {
+            // The table keeps the type of the expression itself; the recorded coercion makes
+            // the TAST builder wrap it into the dyn value.
+            self.results.record_expr_ty(e, uncoerced_ty);
+        }
         expr_tast
     }
 
